@@ -165,7 +165,7 @@ Section Hist4.
     KInv w -> NInv w -> KInv (fst (run_node_sync po lab w cached key outs)) /\ NInv (fst (run_node_sync po lab w cached key outs)).
   Proof.
     intros K Nv. unfold run_node_sync. destruct (w_ctl w) as [m|]; [|split; assumption].
-    destruct (sync_node po lab (can_patch w key) (api_same w key) (held_cidrs (w_ncache w)) m cached (find_node key (w_ncache w)) outs) as [[m' r] fx].
+    destruct (sync_node po lab (svc_list (w_svc w)) (can_patch w key) (api_same w key) (held_cidrs (w_ncache w)) m cached (find_node key (w_ncache w)) outs) as [[m' r] fx].
     cbn [fst].
     assert (A : KInv (after_call w r m') /\ NInv (after_call w r m')) by (apply after_call_kn; assumption).
     destruct A as [A B]. apply apply_effects_kn; assumption.
@@ -201,7 +201,7 @@ Section Hist4.
         right. exists x, cn. split; [|split; assumption]. cbn. rewrite Ef in Hx. destruct Hx as [E|Hx]; [destruct He as [->| ->]; discriminate E|exact Hx].
       - rewrite Ef in kl. exact (last_ok_tail _ _ kl).
       - apply put_node_names. exact kn. }
-    unfold handle_nevent. destruct He as [->| ->]; cbn [set_caches setnf w_ctl w_nfeed w_ncache w_ccache w_cfeed] in *;
+    unfold handle_nevent. destruct He as [->| ->]; cbn [set_caches setnf w_ctl w_nfeed w_ncache w_ccache w_cfeed w_svc] in *;
       (destruct (w_ctl w); cbn [fst]; [|exact G]); eapply kinv_same; [exact G|reflexivity|reflexivity|reflexivity|exact G|reflexivity|reflexivity|reflexivity].
   Qed.
 
@@ -222,8 +222,8 @@ Section Hist4.
         right. exists x, cn. split; [|split; assumption]. cbn. rewrite Ef in Hx. destruct Hx as [E|Hx]; [inversion E as [E']; exfalso; apply Hne; rewrite E'; symmetry; exact Hn|exact Hx].
       - exact kl2.
       - apply del_node_names. exact kn. }
-    unfold handle_nevent. cbn [set_caches setnf w_ctl w_nfeed w_ncache w_ccache w_cfeed] in *.
-    destruct (w_ctl w) as [m|]; [|exact G]. destruct (release_cidr m last) as [m' r]. destruct r; cbn [fst]; try apply kinv_crashed;
+    unfold handle_nevent. cbn [set_caches setnf w_ctl w_nfeed w_ncache w_ccache w_cfeed w_svc] in *.
+    destruct (w_ctl w) as [m|]; [|exact G]. destruct (release_cidr (svc_list (w_svc w)) m last) as [m' r]. destruct r; cbn [fst]; try apply kinv_crashed;
       (eapply kinv_same; [exact G|reflexivity|reflexivity|reflexivity]).
   Qed.
 
@@ -236,7 +236,7 @@ Section Hist4.
     assert (Hsy : w_synced w = true).
     { destruct (w_synced w) eqn:E; [reflexivity|]. destruct (h_uns w I E) as (_ & B & _). rewrite Ef in B. discriminate B. }
     assert (W0 : WInv (setnf w rest)).
-    { pose proof (h_w w I) as Ww. destruct Ww as [a1 b1 c1 d1 e1 f1 g1 h1 i1]. constructor; cbn; try assumption. rewrite Ef in c1. inversion c1; assumption. }
+    { pose proof (h_w w I) as Ww. destruct Ww as [a1 b1 c1 d1 e1 f1 g1 h1 i1 j1]. constructor; cbn; try assumption. rewrite Ef in c1. inversion c1; assumption. }
     pose proof (handle_nevent_winv (setnf w rest) (NDel last) W0 Hwe) as Wh.
     unfold handle_nevent, setnf in *. cbn [nev_node] in *. rewrite Hl in *.
     assert (Hdn' : NoDup (n_name n :: dead_names rest)) by (pose proof (h_dead_nodup w I) as H; rewrite Ef in H; exact H).
@@ -251,11 +251,11 @@ Section Hist4.
     assert (Hcached : forall nm c, nm <> n_name n -> cached_c w nm c -> cached_c (set_caches w (del_node (n_name n) (w_ncache w)) (w_ccache w) rest (w_cfeed w)) nm c).
     { intros nm c Hne (y & Hy & Hn & Hc). exists y. split; [|split; assumption]. cbn. unfold del_node. apply filter_In. split; [exact Hy|].
       destruct (str_eqb (n_name y) (n_name n)) eqn:E; [apply str_eqb_eq in E; congruence|reflexivity]. }
-    cbn [set_caches w_ctl w_ncache w_ccache w_nfeed w_cfeed] in *. destruct (w_ctl w) as [m|] eqn:Em.
+    cbn [set_caches w_ctl w_ncache w_ccache w_nfeed w_cfeed w_svc] in *. destruct (w_ctl w) as [m|] eqn:Em.
     * pose proof (wi_ctl w (h_w w I) m Em) as M.
-      destruct (release_cidr m last) as [m' r] eqn:Er.
+      destruct (release_cidr (svc_list (w_svc w)) m last) as [m' r] eqn:Er.
       assert (Hkeep : forall nm c, holder w nm c -> nm <> n_name n -> Held m nm c -> Held m' nm c).
-      { intros nm c Hc Hne Hh. eapply (release_cidr_keeps m last m' r M Hwe Er nm c Hh); [rewrite Hl; exact Hne|].
+      { intros nm c Hc Hne Hh. eapply (release_cidr_keeps _ m last m' r M (wi_svc w (h_w w I)) Hwe Er nm c Hh); [rewrite Hl; exact Hne|].
         intros c0 canon Hc0. apply (h_disj w I (n_name n) c0 nm c); [|exact Hc|congruence]. exact (Hlast c0 canon Hc0). }
       assert (Hres : forall nm c w1, w_ctl w1 = Some m' -> holder w nm c -> nm <> n_name n -> reserved w nm c -> reserved w1 nm c).
       { intros nm c w1 E1 Hc Hne (m0 & E0 & Hh). rewrite Em in E0. inversion E0; subst m0. exists m'. split; [exact E1|apply Hkeep; assumption]. }
@@ -285,7 +285,7 @@ Section Hist4.
          ++ intros Hs. rewrite Hsy in Hs. discriminate Hs.
          ++ intros E0. discriminate E0.
       -- apply (crashed_hinv_of w); [exact I| |reflexivity].
-         pose proof (h_w w I) as Ww. destruct Ww as [a1 b1 c1 d1 e1 f1 g1 h1 i1]. constructor; cbn; try assumption.
+         pose proof (h_w w I) as Ww. destruct Ww as [a1 b1 c1 d1 e1 f1 g1 h1 i1 j1]. constructor; cbn; try assumption.
          ++ rewrite Ef in c1. inversion c1; assumption.
          ++ apply Forall_del_node. exact e1.
     * exfalso. pose proof (h_down w I Em) as Hd. rewrite Hsy in Hd. discriminate Hd.
@@ -487,7 +487,7 @@ Section Hist4.
     { intros y [Hy|[Hy|Hy]]; cbn in Hy; [left; left; exact Hy|destruct (relist_nadd w y Hy)|right; apply relist_nupd; exact Hy]. }
     split.
     - pose proof I as I0. hsplit I; unfold setnf; cbn [set_caches w_nodes w_nfeed w_ncache w_nfetch w_ctl w_synced]; try assumption.
-      + pose proof Hw as Ww. destruct Ww as [a1 b1 c1 d1 e1 f1 g1 h1 i1]. constructor; cbn; try assumption. apply relist_nevents_wf. exact Hw.
+      + pose proof Hw as Ww. destruct Ww as [a1 b1 c1 d1 e1 f1 g1 h1 i1 j1]. constructor; cbn; try assumption. apply relist_nevents_wf. exact Hw.
       + intros e He. destruct e as [y|y|y]; cbn.
         * destruct (relist_nadd w y He).
         * apply relist_nupd in He. destruct He as (a & Ha & ->). cbn. exact (Hnd a Ha).
@@ -522,18 +522,18 @@ Section Hist4.
     handle_nevent (setnf w f) e =
     ((if ob_res (snd (handle_nevent w e)) =? 3 then fst (handle_nevent w e) else setnf (fst (handle_nevent w e)) f), snd (handle_nevent w e)).
   Proof.
-    unfold handle_nevent, setnf. destruct e as [n|n|n]; cbn [set_caches w_ctl w_ncache w_ccache w_nfeed w_cfeed].
+    unfold handle_nevent, setnf. destruct e as [n|n|n]; cbn [set_caches w_ctl w_ncache w_ccache w_nfeed w_cfeed w_svc].
     - destruct (w_ctl w); reflexivity.
     - destruct (w_ctl w); reflexivity.
-    - destruct (w_ctl w) as [m|]; [|reflexivity]. destruct (release_cidr m n) as [m' r]. destruct r; reflexivity.
+    - destruct (w_ctl w) as [m|]; [|reflexivity]. destruct (release_cidr (svc_list (w_svc w)) m n) as [m' r]. destruct r; reflexivity.
   Qed.
 
   Lemma handle_nevent_feed w e : w_nfeed w = [] -> w_nfeed (fst (handle_nevent w e)) = [].
   Proof.
-    intros Hf. unfold handle_nevent. destruct e as [n|n|n]; cbn [set_caches w_ctl].
+    intros Hf. unfold handle_nevent. destruct e as [n|n|n]; cbn [set_caches w_ctl w_svc].
     - destruct (w_ctl w); cbn; exact Hf.
     - destruct (w_ctl w); cbn; exact Hf.
-    - destruct (w_ctl w) as [m|]; [|cbn; exact Hf]. destruct (release_cidr m n) as [m' r]. destruct r; cbn; try exact Hf; reflexivity.
+    - destruct (w_ctl w) as [m|]; [|cbn; exact Hf]. destruct (release_cidr (svc_list (w_svc w)) m n) as [m' r]. destruct r; cbn; try exact Hf; reflexivity.
   Qed.
 
   Definition op_ok4 (w : world) (o : op) : Prop :=
